@@ -474,3 +474,11 @@ package contractcourt
 //@   site store LocalUnilateralCloseInfo.LocalForceCloseSummary: assert value == retn(NewLocalForceCloseSummary, 0)
 //@   site store LocalUnilateralCloseInfo.SpendDetail: assert value == commitSpend
 //@   site store LocalUnilateralCloseInfo.CommitSet: assert value.ConfCommitKey == commitSet.ConfCommitKey && value.HtlcSets == commitSet.HtlcSets
+//@
+//@ // ---- the historical channel state may be missing (channels closed before it was retained): no resolver is supplemented with a nil
+//@ // ---- state, on the restart path and on the first pass alike (finding F33: the anchor resolver was, and the restart panicked)
+//@ func (c *ChannelArbitrator) relaunchResolvers
+//@   site call SupplementState as state-present: assert arg(1) != nil
+//@
+//@ func (c *ChannelArbitrator) prepContractResolutions
+//@   site call SupplementState as state-present: assert arg(1) != nil
